@@ -230,6 +230,7 @@ func runC11(c *Ctx) {
 	c11ForkIds(c)
 	c11Search(c)
 	c11Parser(c)
+	c11Compiled(c)
 	c11World(c)
 }
 
@@ -749,6 +750,191 @@ func c11Parser(c *Ctx) {
 		if g != m {
 			r.violate(Violation{Kind: "correspondence", Key: "C11:parse-model-mismatch", What: "parseRunFilename (jobJournalRe) differs from Lean parseRun",
 				Input: fmt.Sprintf("%q", s), Impl: g, Model: m, Broken: "correspondence C11.parse (Martian.ForkName.parseRun)"})
+		}
+	}
+}
+
+// ---------- 4b. fork ids of compiled programs (real MakeForkIds) ----------
+
+const c11NestTemplate = `
+stage ECHO(
+    in  int what,
+    in  int k,
+    out int result,
+    src comp "x",
+)
+
+pipeline INNER(
+    in  int v,
+    out %[1]s r,
+)
+{
+    map call ECHO(
+        what = split %[2]s,
+        k    = self.v,
+    )
+    return (
+        r = ECHO.result,
+    )
+}
+
+pipeline TOP(
+    out %[3]s r,
+)
+{
+    map call INNER(
+        v = split %[4]s,
+    )
+    return (
+        r = INNER.r,
+    )
+}
+
+call TOP()
+`
+
+func c11MroString(s string) string {
+	var sb strings.Builder
+	sb.WriteByte('"')
+	for _, r := range s {
+		switch {
+		case r == '"' || r == '\\':
+			sb.WriteByte('\\')
+			sb.WriteRune(r)
+		case r < 0x20 || r == 0x7f || r == 0xFFFD:
+			sb.WriteByte('_')
+		default:
+			sb.WriteRune(r)
+		}
+	}
+	sb.WriteByte('"')
+	return sb.String()
+}
+
+// c11Compiled: statically mapped nestings are compiled by the real front end and
+// expanded by the real ForkIdSet.MakeForkIds; every fork of the innermost
+// stage must get its own directory and its own journal name.
+func c11Compiled(c *Ctx) {
+	r := c.Res
+	lit := func(kind string, n int, keys []string) (string, string) {
+		if kind == "arr" {
+			xs := make([]string, n)
+			for i := range xs {
+				xs[i] = strconv.Itoa(i + 1)
+			}
+			return "[" + strings.Join(xs, ", ") + "]", "[]"
+		}
+		xs := make([]string, len(keys))
+		for i, k := range keys {
+			xs[i] = c11MroString(k) + ": " + strconv.Itoa(i+1)
+		}
+		return "{" + strings.Join(xs, ", ") + "}", "map"
+	}
+	type nest struct {
+		okind string
+		on    int
+		okeys []string
+		ikind string
+		in    int
+		ikeys []string
+	}
+	nests := []nest{
+		{"arr", 3, nil, "map", 0, []string{"a", "b"}},
+		{"map", 0, []string{"a", "b"}, "arr", 3, nil},
+		{"map", 0, []string{"a/fork_b", "a"}, "map", 0, []string{"c", "b/fork_c"}},
+		{"arr", 12, nil, "arr", 11, nil},
+		{"arr", 2, nil, "map", 0, []string{".", "%2E", "/", "%2F", "fork0", " "}},
+	}
+	n := 6
+	if c.Thorough {
+		n = 120
+	}
+	for i := 0; i < n; i++ {
+		nn := nest{okind: []string{"arr", "map"}[c.Rng.Intn(2)], ikind: []string{"arr", "map"}[c.Rng.Intn(2)],
+			on: 1 + c.Rng.Intn(12), in: 1 + c.Rng.Intn(12)}
+		clean := func(ks []string) []string {
+			seen := map[string]bool{}
+			var out []string
+			for _, k := range ks {
+				k = strings.ToValidUTF8(k, "?")
+				k = strings.Map(func(r rune) rune {
+					if r < 0x20 || r == 0x7f {
+						return '_'
+					}
+					return r
+				}, k)
+				if !seen[k] {
+					seen[k] = true
+					out = append(out, k)
+				}
+			}
+			return out
+		}
+		nn.okeys, nn.ikeys = clean(c11GenKeys(c)), clean(c11GenKeys(c))
+		nests = append(nests, nn)
+	}
+	for _, nn := range nests {
+		olit, oty := lit(nn.okind, nn.on, nn.okeys)
+		ilit, ity := lit(nn.ikind, nn.in, nn.ikeys)
+		// result types: int collected over inner, then over outer
+		innerTy := "int[]"
+		if ity == "map" {
+			innerTy = "map<int>"
+		}
+		var outerTy string
+		switch {
+		case oty == "[]" && ity == "[]":
+			outerTy = "int[][]"
+		case oty == "[]" && ity == "map":
+			outerTy = "map<int>[]"
+		case oty == "map" && ity == "[]":
+			outerTy = "map<int[]>"
+		default:
+			continue // map of map is not a legal MRO type: bind through a struct instead (not generated here)
+		}
+		src := fmt.Sprintf(c11NestTemplate, innerTy, ilit, outerTy, olit)
+		ids, err := core.VerifCompiledForkIds(src, "TOP.INNER.ECHO")
+		if err != nil {
+			r.note("compiled nesting %s over %s: %v", nn.okind, nn.ikind, err)
+			continue
+		}
+		r.hist("compiled_nestings")
+		want := 1
+		if nn.okind == "arr" {
+			want *= nn.on
+		} else {
+			want *= len(nn.okeys)
+		}
+		if nn.ikind == "arr" {
+			want *= nn.in
+		} else {
+			want *= len(nn.ikeys)
+		}
+		cls := "shape"
+		if nn.okind == "arr" && nn.ikind == "map" {
+			cls = "array-over-map"
+		}
+		dirs := map[string]bool{}
+		jns := map[string]bool{}
+		for _, id := range ids {
+			r.count("compiled:"+src+":"+id, true)
+			jn := core.VerifEncodeJournalName(id)
+			if dirs[id] {
+				r.violate(Violation{Kind: "property", Key: "C11:compiled-dir-collision:" + cls, What: "two forks of a compiled, statically mapped stage get the same directory (ForkIdSet.MakeForkIds + ForkIdString)",
+					Input: map[string]interface{}{"mro": src, "stage": "TOP.INNER.ECHO"}, Impl: ids, Expect: fmt.Sprintf("%d distinct fork ids", want),
+					Broken: "forkId_reenters_at_map_part"})
+				break
+			}
+			if jns[jn] {
+				r.violate(Violation{Kind: "property", Key: "C11:compiled-journal-collision:" + cls, What: "two forks of a compiled, statically mapped stage get the same journal name",
+					Input: map[string]interface{}{"mro": src, "stage": "TOP.INNER.ECHO"}, Impl: ids, Broken: "journal_name_injective"})
+				break
+			}
+			dirs[id], jns[jn] = true, true
+		}
+		if len(ids) != want {
+			r.violate(Violation{Kind: "property", Key: "C11:fork-count:" + cls, What: "a statically mapped stage does not get one fork per index/key combination",
+				Input: map[string]interface{}{"mro": src}, Impl: len(ids), Expect: want})
 		}
 	}
 }
